@@ -120,6 +120,10 @@ FLOORS = {  # ~45 % of the counts measured on the current tree (quick: 5904 case
                               "nanlane_cases": 12500, "nanlane_allnan_segment_next_to_mixed_lane": 2800},
                  "sets": {"op_axis_kind": 120}, "max_skipped_fraction": 0.2},
 }
+# sibling facet (vf/mon/siblings.py): ~45 % of the smallest count of the five quick seeds on the unchanged tree; thorough =
+# quick floor x (thorough / quick stream size) x 0.6.  A run in which the facet never executed is INCONCLUSIVE.
+FLOORS["quick"]["counters"].update({"siblings_built": 2600, "siblings_computed_together": 380, "siblings_with_different_values": 235})
+FLOORS["thorough"]["counters"].update({"siblings_built": 29000, "siblings_computed_together": 4300, "siblings_with_different_values": 2600})
 EXHAUSTIVE_SPACE = ("all chunkings of shapes (4,) and (2,3) x {sum, max, mean, cumsum(sequential), cumsum(blelloch), argmin} "
                     "x all axis choices x keepdims x split_every in {2, None} x {int64 with ties, float64 with NaN}; "
                     "all 32 chunkings of the (4,3) nan-lane array [[nan,nan,7],[nan,1,9],[4,5,8],[3,6,nan]] x "
